@@ -2421,6 +2421,13 @@ def run(prop_id, tier, seed, replay=None):
         hist[f"{kind}:{key}"] = hist.get(f"{kind}:{key}", 0) + 1
         if P.nontrivial(ctx, cid, canon):
             nontriv.add((kind, tuple(args)))
+    # input distribution: bytes per case (hex arguments halved), and case kinds
+    size_hist, kind_hist = {}, {}
+    for cid, kind, args in ctx.cases:
+        nbytes = sum(len(a) for a in args) // 2
+        bucket = "<64" if nbytes < 64 else "<256" if nbytes < 256 else "<1Ki" if nbytes < 1024 else "<4Ki" if nbytes < 4096 else "<64Ki" if nbytes < 65536 else ">=64Ki"
+        size_hist[bucket] = size_hist.get(bucket, 0) + 1
+        kind_hist[kind] = kind_hist.get(kind, 0) + 1
     sample_ids = [c[0] for c in ctx.cases[:: max(1, len(ctx.cases) // 5)]][:5]
     coverage = {
         "obligations": proof["obligations"], "discharged": proof["discharged"],
@@ -2446,6 +2453,7 @@ def run(prop_id, tier, seed, replay=None):
         "corpus_cases": len(cctx.cases), "corpus_mismatches": len(corpus_bad),
         "known_finding_hits": {k: len(v) for k, v in known_hits.items()},
         "verdict_histogram": hist,
+        "input_size_histogram": size_hist, "case_kind_histogram": kind_hist,
         "profiles": list(P.profiles),
         "samples": [{"kind": ctx.meta[i]["kind"], "args": [a[:200] for a in ctx.meta[i]["args"]], "impl": impl0[i][0][:300]} for i in sample_ids],
     }
